@@ -24,9 +24,15 @@ func H_C17_dq() {
 // the one the tokenizer is in).
 func H_C17_dq_context() {
 	// (no double quote in the prefix: `""` next to the identifier is the embedded-quote case of H_C17_dq)
-	if verif.Choose("alphabet", 2) == 1 {
+	switch verif.Choose("alphabet", 3) {
+	case 1:
 		// comments holding quotes, before the identifier
 		prefix := verif.Str("prefix", 5+verif.Tier(), "-' \n#")
+		checkDQ(prefix + "\"b\"")
+		return
+	case 2:
+		// the other blanks that make `--` a comment (tab, carriage return)
+		prefix := verif.Str("prefix", 5+verif.Tier(), "-'\t\r\n")
 		checkDQ(prefix + "\"b\"")
 		return
 	}
@@ -95,11 +101,13 @@ func checkDQ(s string) {
 func H_C17_arrays() {
 	maxLen := 5 + verif.Tier()
 	alpha := "[]'\"`a,1"
-	switch verif.Choose("backslash", 3) {
+	switch verif.Choose("backslash", 4) {
 	case 1:
 		alpha = "[]'\\\"a" // escapes inside literals: \\ \' \" before and between brackets
 	case 2:
 		alpha = "[]-' \n" // comments holding brackets and quotes
+	case 3:
+		alpha = "[]-'\t\n" // `--` before a tab
 	}
 	s := verif.Str("s", maxLen, alpha)
 	// the implementation runs first, on the still symbolic bytes
